@@ -405,3 +405,89 @@ func Verif_C30_IgnoreSkippedAfterKex() {
 	}
 	verifrt.Reach("delivered")
 }
+
+// ---------------------------------------------------------------------------------------------
+// (3) handshake layer over the REAL transport (real readPacket filter, real sequence numbers,
+// real setStrictMode / setInitialKEXDone), only the packet ciphers are scripted
+// ---------------------------------------------------------------------------------------------
+
+// c30KT is the real *transport with prepareKeyChange replaced (no key derivation: the new
+// ciphers are scripted ones); every other method of the keyingTransport is the real one.
+type c30KT struct {
+	*transport
+	nextR      *c30Cipher
+	keyChanges int
+}
+
+func (k *c30KT) prepareKeyChange(*NegotiatedAlgorithms, *kexResult) error {
+	k.keyChanges++
+	k.reader.pendingKeyChange <- k.nextR
+	k.writer.pendingKeyChange <- &c30Cipher{}
+	return nil
+}
+
+// Verif_C30_RealTransport: a first key exchange of the real handshakeTransport over the real
+// transport, server or client role, the peer offering the strict marker or not, with one IGNORE
+// or DEBUG packet inserted by the attacker at position 0 (before the peer's KEXINIT), 1 (before
+// the key-exchange packet), 2 (before NEWKEYS) or not at all. Strict mode: the handshake fails
+// for every inserted packet and succeeds without one; no strict mode: it succeeds for every
+// position (the packet is skipped transparently). On success the transport's flags are as
+// required: strict iff negotiated, initial exchange marked complete, both sequence numbers
+// restarted iff strict.
+func Verif_C30_RealTransport() {
+	verifrt.Goroutines(true)
+	server := verifrt.Choose(0, 1) == 1
+	strict := verifrt.Choose(0, 1) == 1
+	pos := verifrt.Choose(0, 3)
+	typ := []byte{msgIgnore, msgDebug}[verifrt.Choose(0, 1)]
+	var hs [][]byte
+	if server {
+		hs = [][]byte{c31PeerInit(strict), {msgKexECDHInit}, {msgNewKeys}}
+	} else {
+		hs = [][]byte{c30ServerInit(strict), {msgKexECDHReply}, {msgNewKeys}}
+	}
+	var script [][]byte
+	for i, p := range hs {
+		if i == pos {
+			script = append(script, []byte{typ, 0, 0, 0, 0})
+		}
+		script = append(script, p)
+	}
+	tr := c30Transport(&c30Cipher{script: script}, &c30Cipher{})
+	tr.isClient = !server
+	kt := &c30KT{transport: tr, nextR: &c30Cipher{}}
+	var t *handshakeTransport
+	if server {
+		kexAlgoMap[c31KexName] = c31Kex{}
+		cfg := &ServerConfig{}
+		cfg.Config = Config{Rand: c31Zero{}, KeyExchanges: []string{c31KexName}, Ciphers: []string{"aes128-ctr"}, MACs: []string{"hmac-sha2-256"}}
+		cfg.hostKeys = []Signer{c31Signer{}}
+		t = newServerTransport(kt, []byte("SSH-2.0-c"), []byte("SSH-2.0-s"), cfg)
+	} else {
+		c30StubVerify = true
+		kexAlgoMap[c31KexName] = c30ClientKex{}
+		cfg := &ClientConfig{HostKeyCallback: InsecureIgnoreHostKey()}
+		cfg.Config = Config{Rand: c31Zero{}, KeyExchanges: []string{c31KexName}, Ciphers: []string{"aes128-ctr"}, MACs: []string{"hmac-sha2-256"}}
+		cfg.HostKeyAlgorithms = []string{KeyAlgoED25519}
+		t = newClientTransport(kt, []byte("SSH-2.0-c"), []byte("SSH-2.0-s"), cfg, "h:22", nil)
+	}
+	err := t.waitSession()
+	if strict && pos < 3 {
+		verifrt.Assert(err != nil, "strict KEX: a packet inserted before the first NEWKEYS makes the handshake fail")
+		verifrt.Reach("strict-injection-fails")
+		return
+	}
+	verifrt.Assert(err == nil, "handshake succeeds (no insertion, or IGNORE/DEBUG skipped transparently without strict mode)")
+	verifrt.Assert(tr.strictMode == strict && t.strictMode == strict, "strict mode on iff negotiated")
+	verifrt.Assert(tr.initialKEXDone, "initial key exchange marked complete")
+	verifrt.Assert(kt.keyChanges == 1, "keys changed once")
+	if strict {
+		verifrt.Assert(tr.writer.seqNum == 0, "strict: write sequence number restarted at NEWKEYS")
+	} else {
+		verifrt.Assert(tr.writer.seqNum != 0, "no strict mode: write sequence number keeps counting")
+		if pos < 3 {
+			verifrt.Reach("nonstrict-skipped")
+		}
+	}
+	verifrt.Reach("handshake-ok")
+}
